@@ -8,31 +8,64 @@ LEVEL_TEXT = ("After every processTransaction() of a generated history the real 
               "checkers that are proved sound AND complete for all finite multigraphs: connected, "
               "acyclic (every connector a bridge), no dangling connector end, leaves = the terminal "
               "set the hyperedge had before; plus live objects = (before + reported new) - reported "
-              "deleted, and route ends at the attached objects.")
-LEVEL_NOTE = ("Nothing of MTST construction or of the improver's local moves is modelled; only the states the "
-              "real code produced on the generated histories are decided (per-run translation validation). "
+              "deleted, and route ends at the attached objects. In addition the mechanism that rewrites a hyperedge "
+              "(the hyperedge tree and the improver's structural rewrites) is modelled as coded, proved to keep a well-formed "
+              "tree for all heaps, and replayed against the real code call by call.")
+LEVEL_NOTE = ("MODELLED (Model/HyperTree.lean) and proved for ALL heaps that are well-formed trees (Props/C12Ops): the pointer-based "
+              "hyperedge tree of hyperedgetree.cpp (nodes with ordered edge lists, edges with first/second end, junction and "
+              "connector pointers, object allocation) with its primitives (disconnectEdge, replaceNode, spliceEdgesFrom, "
+              "splitFromNodeAtPoint, constructors, delete) and the improver's structural rewrites as compositions of them, as coded: "
+              "removeZeroLengthEdges(node, ignored) (all four target/source branches, junction deletion lists, root replacement, the "
+              "restart-and-return traversal) and moveJunctionAlongCommonEdge (common/other classification, in-scan splits, junction "
+              "moved with/without freeing the old node, junction split with new junction + connector). Theorems: every one of these "
+              "returns (no assertion, no non-termination of the splice loop) and keeps WF (nothing dangling, both link directions agree) "
+              "and IsTree (the predicate Check.Tree.isTree decides); any finite sequence of rewrites keeps them (improve_preserves_tree); "
+              "junction bookkeeping consistent and conserved; the set of leaves is kept under explicit side conditions (no leaf among the "
+              "merged nodes) which closed witnesses show to be necessary and which the C++ callers do NOT establish (see report: the tree "
+              "loses a terminal node when a junction sits on a terminal; the connector itself stays attached, so the scene-level "
+              "property is judged by the per-transaction checkers). "
+              "NOT modelled: MTST construction, shift-segment nudging (only as arbitrary coordinate changes), mergesWith/balance, "
+              "writeEdgesToConns / updateConnEnds / addConns (route and ConnEnd write-back); for those only the states the real code produced "
+              "on the generated histories are decided (per-run translation validation). "
               "The driver's glue is trusted: numbering of vertices, slicing the global graph per hyperedge "
-              "(fuelled BFS; a wrong slice can only make the proven check fail), wording of diagnostics. "
+              "(fuelled BFS; a wrong slice can only make the proven check fail), canonical renaming of tree objects for the "
+              "op-level comparison (breadth-first from a surviving node, following the edge lists in order), wording of diagnostics. "
               "Route ends: exact equality with JunctionRef::position() or recommendedPosition() / a pin position "
               "is counted (stats route.ends-exact); a route end is *accepted* up to a documented slack "
               "(junction: Chebyshev distance <= 25 = largest idealNudgingDistance generated, because orthogonal "
               "nudging runs after the hyperedge code; terminal: on or inside the pin's shape) and either orientation "
-              "of displayRoute() is accepted (the improver writes some routes target-to-source). "
+              "of displayRoute() is accepted (the improver writes some routes target-to-source; one cause is modelled: "
+              "removeZeroLengthEdges deletes the far node of a zero-length last segment and with it isConnectorSource, "
+              "theorem rzle_drops_isConnectorSource_witness). "
               "Junctions reported deleted stay allocated until the next transaction (deleteJunction only queues): "
               "live junctions = m_obstacles minus those reported deleted in this transaction, and they must be gone "
               "one transaction later. "
               "Scene features under which the UNMODIFIED library violates the property or crashes are off in the "
               "default stream and reproducible with --mode (centre pins, insideOffset>0, two pins of one class, "
               "ordinary connectors in the scene, two registrations in one transaction); see the C12 report.")
-TECHNIQUE = ("Lean 4 theorems (isTree_iff, isTreeWithLeaves_sound/_complete, liveConsistent_iff; union-find "
-             "labelling invariant) + translation validation of libavoid's real output over generated histories")
+TECHNIQUE = ("Lean 4 theorems: checkers (isTree_iff, isTreeWithLeaves_sound/_complete, liveConsistent_iff; union-find labelling invariant); "
+             "mechanism (Props/C12Ops: contract/split/mergeStep/removeZeroLengthEdges/moveJunction preserve WF and IsTree for all heaps, "
+             "improve_preserves_tree, junction bookkeeping, terminal set under side conditions + closed witnesses, wfb/jinvb sound) "
+             "+ op-level correspondence of the model with the real code (tree primitives and the improver's private rewriting steps "
+             "called one at a time on generated trees; with the guarded hook also every such call inside HyperedgeImprover::execute) "
+             "+ translation validation of libavoid's real output over generated histories")
 RULE = ("13 generator classes cycled: {no full rerouting at first | rerouting registered by junction} x "
         "{improvement off | moving junctions | moving/adding/deleting} x {1 | 2 hyperedges}, plus "
         "'terminal-list' (hyperedge created by registerHyperedgeForRerouting(ConnEndList)); 3-9 terminals on "
         "side pins, 1-4 junction seeds on free 'streets' of a cell grid, 0-5 obstacle shapes, 2-5 (thorough 2-7) "
         "transactions: shape moves, junctions moved to recommendedPosition(), re-registration by junction, "
-        "option flips. A case is non-trivial if some transaction reported a new or deleted object.")
+        "option flips. A case is non-trivial if some transaction reported a new or deleted object. "
+        "Second stream (--mode ops, 700 / 6000 cases): classes ops-prim (random improver-shaped tree + 2-10 random primitive calls: "
+        "splitFromNodeAtPoint, the contraction sequence, replaceNode, disconnectEdge+delete, spliceEdgesFrom, point changes; exact "
+        "comparison of the whole heap after every call), ops-rzle/-move/-odd x minor/major (trees of 3-9 hubs joined by connector paths of "
+        "1-4 segments on a coarse grid with many coincident points, collinear overlapping first segments, a few oblique segments, fixed "
+        "junctions, fixed-route connectors, 'odd' = junction on an inner node / flipped hasFixedRoute; 1-3 rounds of "
+        "removeZeroLengthEdges(root) + moveJunctionAlongCommonEdge per junction until it returns null + emulated segment shifts; "
+        "comparison up to renaming after every call), ops-witness (the three closed witnesses of Props/C12Ops against the real code). "
+        "An ops case is non-trivial if some call changed the number of tree objects.")
 TRUSTED_BASE = ["Lean 4.33 kernel", "axioms: propext, Classical.choice, Quot.sound",
+                "ops harness: explicit-instantiation access to HyperedgeImprover's private members (maps, lists, the two private "
+                "rewriting methods); heap dump of HyperedgeTreeNode/Edge by traversal; object numbering",
                 "compiled driver glue (vertex numbering, per-hyperedge slicing, hex-float import)",
                 "harness: reads ConnRef::endpointConnEnds/displayRoute, JunctionRef::position/recommendedPosition, "
                 "Router::connRefs/m_obstacles, newAndDeletedObjectLists*; ids of freed objects come from a "
